@@ -175,6 +175,41 @@ where
             }
             o
         }
+        "PokReuse" => {
+            // one commitment answered for two challenges: (v1 - v2) / (y2 - y1) is the signature
+            let (comm, x) = match ProofCommitment::<C>::generate(&msg, sig) {
+                Ok(c) => c,
+                Err(e) => return Outcome::fail(json!({}), format!("commit: {e}")),
+            };
+            let x2: ProofCommitmentSecret<C> = match ProofCommitmentSecret::<C>::try_from(Vec::<u8>::from(&x).as_slice()) {
+                Ok(s) => s,
+                Err(e) => return Outcome::fail(json!({}), format!("commitment secret does not survive its byte form: {e}")),
+            };
+            let ych = |n: u8| {
+                let mut b = [0u8; 32];
+                b[31] = n;
+                Option::<ProofCommitmentChallenge<C>>::from(ProofCommitmentChallenge::<C>::from_be_bytes(&b)).expect("challenge from bytes")
+            };
+            let (y1, y2) = (ych(geti(v, "y1") as u8), ych(geti(v, "y2") as u8));
+            let (p1, p2) = match (comm.clone().finalize(x, y1.clone(), sig), comm.finalize(x2, y2.clone(), sig)) {
+                (Ok(a), Ok(b)) => (a, b),
+                _ => return Outcome::fail(json!({}), "finalize refused an honest commitment"),
+            };
+            let (_, _, v1) = parts::<C>(&p1);
+            let (_, _, v2) = parts::<C>(&p2);
+            let d = (y2.0 - y1.0).invert();
+            if bool::from(d.is_none()) {
+                return Outcome::fail(json!({}), "harness: equal challenges");
+            }
+            let ext = (v1 - v2) * d.unwrap();
+            let same = enc_s::<C>(&ext) == enc_s::<C>(sig.as_raw_value());
+            if same != getb(&v["expect"], "extracted") {
+                return Outcome::fail(json!({"extracted": same}), "two responses under one commitment: (v1 - v2)/(y2 - y1) is not the signature, the proof is not -(x + y) sig");
+            }
+            let mut o = Outcome::pass(json!({"extracted": same}));
+            o.extra += 1;
+            o
+        }
         "PokTs" => {
             blsful::verif_hooks::set_virtual_now_ms(Some(BASE_MS));
             let gen = ProofOfKnowledgeTimestamp::<C>::generate(&msg, sig);
